@@ -42,7 +42,8 @@ def count_comments(text):
 
 
 def regen_clisrc():
-    from translate import clisrc
+    from translate import clisrc, cliresolve
+    cliresolve.generate()       # CmGen/CliResolve.lean: resolve_variable, its call sites and the pre-pass of main (CmProps/C08resolve.lean)
     clisrc.generate()           # CmGen/CliSrc.lean: path handling, target ratio, dispatch literals of cli/main.py as they read now (CmProps/C09src.lean)
 
 
